@@ -57,6 +57,10 @@ theorem keep_special_commentOut (o : Opts) (ext : Ext) (data text out : List Cha
           split at h
           · cases h
           · next inner' hi =>
+            -- the original stays when the minified content would end the comment (a80add2)
+            by_cases hend : (bytesContain (s "-->") inner' || bytesContain (s "--!>") inner') = true
+            · simp only [hend, if_true] at h; cases h; exact Or.inl rfl
+            simp only [hend, Bool.false_eq_true, if_false] at h
             cases h
             simp only [Bool.and_eq_true] at hc
             have hsuf := isSuffixOf_drop _ _ hc.2
